@@ -93,6 +93,35 @@ where
             }
         }
     }
+    // the 80-octet encoding with exponents at the edges of the scalar range (1, 2, r - 1, r - 2, values just below
+    // r that differ from it in a middle octet only, 2^254): whatever `to_bytes` writes, `from_bytes` reads back
+    {
+        let (sk, pk) = rand_keypair::<CS>(h);
+        let msgs = rand_msgs(h, 1);
+        if let Some(s0) = sign::<CS>(h, &sk, &pk, None, Some(&msgs)).ok() {
+            let r_be: [u8; 32] = [0x73, 0xed, 0xa7, 0x53, 0x29, 0x9d, 0x7d, 0x48, 0x33, 0x39, 0xd8, 0x08, 0x09, 0xa1, 0xd8, 0x05, 0x53, 0xbd, 0xa4, 0x02, 0xff, 0xfe, 0x5b, 0xfe, 0xff, 0xff, 0xff, 0xff, 0x00, 0x00, 0x00, 0x01];
+            let mut cands: Vec<[u8; 32]> = Vec::new();
+            let mut one = [0u8; 32]; one[31] = 1; cands.push(one);
+            let mut two = [0u8; 32]; two[31] = 2; cands.push(two);
+            let mut rm1 = r_be; rm1[31] = 0; cands.push(rm1);              // r - 1
+            let mut rm2 = r_be; rm2[31] = 0; rm2[27] = 0xfe; cands.push(rm2); // r - 1 - 2^32
+            for i in [2usize, 3, 4, 8, 16] {                                   // below r in octet i only
+                let mut c = r_be;
+                if c[i] > 0 { c[i] -= 1; for j in (i + 1)..32 { c[j] = 0xff; } cands.push(c); }
+            }
+            let mut big = [0u8; 32]; big[0] = 0x40; cands.push(big);           // 2^254
+            for c in cands {
+                if let Some(e2) = Option::<Scalar>::from(Scalar::from_be_bytes(&c)) {
+                    let mut s2 = s0.bbsPlusSignature().clone();
+                    s2.e = e2;
+                    let b2 = s2.to_bytes();
+                    let d = dec(h, "sig", &b2);
+                    h.stat("C01.boundary_exponent_roundtrip");
+                    h.expect(matches!(&d, Out::Ok(x) if x[..] == b2[..]), "C01.boundary_exponent_roundtrip", "a signature whose exponent lies at the edge of the scalar range does not survive its 80-octet encoding", &[h.last()]);
+                }
+            }
+        }
+    }
     // message lists with runs of EQUAL neighbouring messages (and runs of empty messages): a list is a list
     {
         let (sk, pk) = rand_keypair::<CS>(h);
